@@ -110,7 +110,7 @@ fn expected_keys(ver: u8, c: &BTreeSet<String>) -> BTreeSet<String> {
     let mut k: BTreeSet<String> = BTreeSet::new();
     k.insert("end".into());
     if has("decrypting") {
-        for x in ["decrypt", "decrypt_bad", "local_key_text"] {
+        for x in ["decrypt", "decrypt_bad", "local_key_text", "accept_local"] {
             k.insert(x.into());
         }
     }
@@ -118,12 +118,13 @@ fn expected_keys(ver: u8, c: &BTreeSet<String>) -> BTreeSet<String> {
         k.insert("encrypt_fixed_nonce".into());
     }
     if has("verifying") {
-        for x in ["public_display", "verify", "verify_forged"] {
+        for x in ["public_display", "verify", "verify_forged", "accept_public"] {
             k.insert(x.into());
         }
     }
     if has("signing") {
         k.insert("derived_public".into());
+        k.insert("accept_secret".into());
         k.insert(if ver == 1 { "sign_valid".into() } else { "sign".into() });
     }
     if has("id") && has("decrypting") {
@@ -149,6 +150,8 @@ fn expected_keys(ver: u8, c: &BTreeSet<String>) -> BTreeSet<String> {
     if has("pke") {
         k.insert("unseal".into());
         k.insert("reseal_opens".into());
+        k.insert("accept_pke_public".into());
+        k.insert("accept_pke_secret".into());
     }
     k
 }
@@ -179,7 +182,8 @@ fn probe_run(ver: u8, gens: &BTreeSet<String>, mode: &str, art: &str, target: &s
 fn artefact_inputs<V: Full>() -> String {
     let ks = keys::keyset::<V>(false, 0);
     let blob = pk::pw_wrap::<V, Local>(&[0u8; 32], b"pw", Some(&params_for::<V>(Cost::Min))).expect("pbkw blob");
-    format!("secret={}\npke_secret={}\npke_public={}\npbkw_blob={}\n", hex::encode(&ks.secrets[0].bytes), hex::encode(&ks.pke[0].0.bytes), hex::encode(&ks.pke[0].1.bytes), blob)
+    let cands: Vec<String> = crate::c08::key_candidates(V::VER, false).iter().map(|c| hex::encode(&c.1)).collect();
+    format!("secret={}\npke_secret={}\npke_public={}\npbkw_blob={}\ncands={}\n", hex::encode(&ks.secrets[0].bytes), hex::encode(&ks.pke[0].0.bytes), hex::encode(&ks.pke[0].1.bytes), blob, cands.join(","))
 }
 
 pub fn build(ctx: &Ctx) -> Property {
@@ -241,7 +245,7 @@ pub fn build(ctx: &Ctx) -> Property {
         Sub::new(
             "reduced-behaviour",
             4,
-            "per crate: a probe program is built against the crate with exactly the closure's features and prints one line per available operation (decrypt / verify of tokens and PIE / PBKW / sealed blobs made by the full build, fixed-nonce encrypt, deterministic sign, public key derivation and display, ids); every line must equal the full build's line of the same name and the set of lines must be the set the features provide (quick: 6 closures per crate; thorough: every closure)",
+            "per crate: a probe program is built against the crate with exactly the closure's features and prints one line per available operation (accept / reject verdicts of every key kind over the C08 key-byte alphabet, decrypt / verify of tokens and PIE / PBKW / sealed blobs made by the full build, fixed-nonce encrypt, deterministic sign, public key derivation and display, ids); every line must equal the full build's line of the same name and the set of lines must be the set the features provide (quick: 6 closures per crate; thorough: every closure)",
             move |idx, describe| {
                 let ver = idx as u8 + 1;
                 let krate = crates[idx as usize];
